@@ -5,8 +5,26 @@ specs: LocalMax.tla (sequential meaning, phase by phase, + independent steepest-
 Mode A: every image TLC enumerates -> exact label array replayed into cImageD11.localmaxlabel (poisoned
         buffers), sparse_localmaxlabel, sparseframe.sparse_localmax; normal + ASan build.
 Schedules: TLC proves (bounded) that the repaired ordering yields the sequential result for every
-        interleaving; the real code is bound by outcomes: every run at every thread count must equal
+        interleaving (also with more threads than pixels: empty ranges) and that the thread ranges tile the
+        image (RangesTile); the real code is bound by outcomes: every run at every thread count must equal
         the unique sequential result.
+Thread counts are always explicit and READ BACK (cimaged11_omp_get_max_threads; in the hooks build the number of
+        per-thread logs must equal the request): a request that does not take effect is a machinery error.
+        Small cases run at 1, 2, 3, 5, 7, 16, 64 threads (64 > pixels of every small case).
+Harness-only instance families (the model only compares values and walks pointers, so it is covariant under order
+preserving value maps, shapes and coordinate offsets; expectations are the independent numpy / python definitions
+`definition`, `sparse_definition`, `c13_replay.expected_sparse`, `smooth16_definition`):
+  * boundary shapes 3x3, 3xN, Nx3, 4xN, Nx4, Nx5 (one or two interior rows / columns, also > 1024 pixels) at
+    1..64 threads incl. more threads than pixels and thread counts exceeding the strip width + 2
+  * work buffer pre-filled with every direction code 0..9; buffers left by the previous call on another image
+  * the stress images (serpentine = one ascent path through half the image, ridges, noise, ...) and a larger frame
+    through sparse_localmaxlabel / sparseframe.sparse_localmax: full listing, threshold, random and ascent-closed
+    masks; coordinates also at the top of the uint16 range; values of every sign class incl. <= -1e10
+  * clause "sparse = same partition as dense on the same pixels" judged on the REAL outputs of both kernels whenever
+    the listed set is closed under the dense ascent (decided from the image)
+  * cImageD11.sparse_smooth / sparseframe.sparse_smooth directly (16x16 and other shapes, integers < 2^20 so that
+    the 1/16 weights are exact in binary32) and sparse_localmaxlabel on the smoothed signal (what lmlabel does)
+Finding matcher: C13-sparse-mvlow-sentinel (sparse_localmaxlabel mislabels pixels whose values are <= -1e10).
 """
 import os, sys, json, subprocess, time
 import numpy as np
@@ -15,6 +33,31 @@ import c13_replay
 
 PROP = "C13"
 RACE_ID = "C13-walk-race"
+MVLOW_ID = "C13-sparse-mvlow-sentinel"
+MVLOW_WHAT = ("sparse_localmaxlabel starts the neighbour maximum at MV_LOW = -1e10 (src/sparse_image.c): pixels with values "
+              "<= -1e10 are not attached to / not stolen by their larger neighbours (false maxima)")
+
+
+def report(chk, msg, case):
+    """a problem string of c13_replay.run_case / of the sparse families: known finding (structural tag) or violation"""
+    if msg.startswith(c13_replay.MVLOW_TAG):
+        n = chk.notes["sparse_mismatches_with_values_le_mvlow"] = chk.notes.get("sparse_mismatches_with_values_le_mvlow", 0) + 1
+        if chk.finding(MVLOW_ID) is not None:
+            chk.known_finding(MVLOW_ID, MVLOW_WHAT)
+        elif n <= 3:            # one class of failure: the first few are reported, all are counted
+            chk.violation(msg, case)
+    else:
+        chk.violation(msg, case)
+
+
+def merge_stats(dst, src):
+    for k, v in src.items():
+        if isinstance(v, dict):
+            d = dst.setdefault(k, {})
+            for kk, vv in v.items():
+                d[kk] = d.get(kk, 0) + vv
+        else:
+            dst[k] = dst.get(k, 0) + v
 
 
 def lm_cfg(ns, nf, family, V, P):
@@ -24,14 +67,15 @@ def lm_cfg(ns, nf, family, V, P):
                                         "SparseAgrees", "Emit"])
 
 
-def par_cfg(n, nt, fixed, reread, invs=("Correct", "FlagImpliesLabel")):
+def par_cfg(n, nt, fixed, reread, invs=("Correct", "FlagImpliesLabel", "RangesTile")):
     return common.write_cfg(os.path.join(common.scratch(), "lmpar_%d_%d_%s_%s.cfg" % (n, nt, fixed, reread)),
                             constants={"N": n, "NT": nt, "FIXED": fixed, "REREAD": reread, "POISON": 99},
                             invariants=list(invs))
 
 
-def definition(img):
-    """steepest-ascent labels by the independent definition (numpy); None if some 3x3 block has a tie"""
+def definition(img, pointers=False):
+    """steepest-ascent labels by the independent definition (numpy); None if some 3x3 block has a tie.
+    pointers=True: also the uphill pointer of every pixel (flat index; border pixels point to themselves)"""
     ns, nf = img.shape
     best = np.full(img.shape, -1, np.int64)
     bestv = np.full(img.shape, -np.inf)
@@ -57,6 +101,7 @@ def definition(img):
     if (tie & interior).any():
         return None
     ptr = np.where(interior, best, idx).ravel()
+    ptr0 = ptr
     # pointer jumping to the terminal
     for _ in range(64):
         nxt = ptr[ptr]
@@ -67,7 +112,59 @@ def definition(img):
     rank = np.cumsum(ismax) * ismax
     lab = rank[ptr]
     lab[~interior.ravel()] = 0
+    if pointers:
+        return lab.reshape(ns, nf).astype(np.int32), int(ismax.sum()), ptr0
     return lab.reshape(ns, nf).astype(np.int32), int(ismax.sum())
+
+
+def sparse_definition(vals, listed):
+    """the sparse variant's meaning on a listed pixel set (numpy, any size): every listed pixel points to the largest
+    LISTED pixel of its 3x3 block (clipped at the image edge), labels = rank in list (raster) order of the terminal
+    maximum.  Returns (labels of the listed pixels in raster order, number of maxima) or None when some listed pixel's
+    block has a tie among listed pixels (result then implementation defined)."""
+    ns, nf = vals.shape
+    p = np.full((ns + 2, nf + 2), -np.inf)
+    p[1:-1, 1:-1] = np.where(listed, vals.astype(np.float64), -np.inf)
+    flat = np.arange(ns * nf).reshape(ns, nf)
+    best = np.full((ns, nf), -np.inf)
+    cnt = np.zeros((ns, nf), np.int64)
+    up = flat.copy()
+    for dr in (-1, 0, 1):
+        for dc in (-1, 0, 1):
+            sh = p[1 + dr:1 + dr + ns, 1 + dc:1 + dc + nf]
+            gt = sh > best
+            eq = (sh == best) & (sh > -np.inf)
+            cnt = np.where(gt, 1, cnt + eq)
+            up = np.where(gt, flat + dr * nf + dc, up)
+            best = np.where(gt, sh, best)
+    if (cnt[listed] != 1).any():
+        return None
+    lf = listed.ravel()
+    ptr = np.where(lf, up.ravel(), np.arange(ns * nf))
+    ismax = lf & (ptr == np.arange(ns * nf))
+    for _ in range(64):
+        nxt = ptr[ptr]
+        if np.array_equal(nxt, ptr):
+            break
+        ptr = nxt
+    rank = np.cumsum(ismax) * ismax
+    return rank[ptr][lf].astype(np.int32), int(ismax.sum())
+
+
+def smooth16_definition(rows, cols, vals):
+    """16 x (sparse_smooth's meaning) in exact integers: weight 4 for the pixel itself, 2 for listed edge neighbours,
+    1 for listed corner neighbours; pixels that are not listed contribute nothing"""
+    at = {(int(r), int(c)): int(v) for r, c, v in zip(rows, cols, vals)}
+    out = []
+    for (r, c) in zip(rows, cols):
+        r, c = int(r), int(c)
+        t = 0
+        for dr in (-1, 0, 1):
+            for dc in (-1, 0, 1):
+                w = 4 if (dr == 0 and dc == 0) else (2 if (dr == 0 or dc == 0) else 1)
+                t += w * at.get((r + dr, c + dc), 0)
+        out.append(t)
+    return np.array(out, np.int64)
 
 
 def stress_images(tier, rng):
@@ -146,6 +243,9 @@ def run_gap_patterns(chk, tier, mods):
         if es is None:
             continue
         elab, en = es
+        es2 = sparse_definition(vals, m)        # the two independent statements of the definition must agree
+        if es2 is None or es2[1] != en or es2[0].tolist() != elab:
+            raise common.MachineryError("sparse_definition and c13_replay.expected_sparse disagree on %s / %s" % (vals.tolist(), m.tolist()))
         ii, jj = np.nonzero(m)
         v = vals[m]
         n += 1
@@ -180,27 +280,42 @@ def hook_traces(chk, tier):
         imgs.append(("noise", rng.permutation(a * b).reshape(a, b).astype(np.float32)))
         imgs.append(("serpentine", serpentine(a, b, rng)))
     keep = [(n, im) for (n, im) in imgs if definition(im) is not None]
+    # strips (single interior row / column) and more threads than pixels (64 > 30 = 5x6, > 51 = 3x17): empty ranges
+    nstrip = 0
+    for (a, b) in [(3, 17), (17, 3)]:
+        for n, im in strip_images(a, b, rng)[:4]:
+            if definition(im) is not None:
+                keep.append((n, im))
+                nstrip += 1
     d = os.path.join(common.scratch(), "hooktraces")
     os.makedirs(d, exist_ok=True)
-    threads = [2, 3, 4, 7]
-    arrs = {"names": np.array([n for n, _ in keep]), "threads": np.array(threads)}
+
+    def threads_of(im):
+        return [2, 3, 4, 7, 64] if im.size <= 60 else [2, 3, 4, 7]
+    arrs = {"names": np.array([n for n, _ in keep])}
     for k, (n, im) in enumerate(keep):
         arrs["img_%d" % k] = im
+        arrs["threads_%d" % k] = np.array(threads_of(im))
     np.savez(os.path.join(d, "cases.npz"), **arrs)
     env = dict(os.environ, PYTHONPATH=shadow, NUMBA_CACHE_DIR=os.path.join(common.scratch(), "numba"), OMP_WAIT_POLICY="passive")
     env.pop("IMAGED11_VERIF_TRACE", None)
     here = os.path.dirname(os.path.dirname(os.path.abspath(__file__)))
     p = subprocess.run([common.PY, os.path.join(here, "c13_hooks_child.py"), os.path.join(d, "cases.npz"), d], env=env,
                        stdout=subprocess.PIPE, stderr=subprocess.PIPE, text=True, timeout=1800)
+    if p.returncode == 3:
+        raise common.MachineryError("vacuity: hooks child: %s" % p.stderr[-600:])
     if p.returncode != 0:
         raise common.MachineryError("hooks child failed: %s" % p.stderr[-1500:])
+    nmore = 0
+    nmodel = 0
+    nruns = 0
     recs = []
     meta = {}
     for k, (name, im) in enumerate(keep):
         exp, nexp = definition(im)
         ns, nf = im.shape
         off = {0: 0, 1: -1 - nf, 2: -1, 3: -1 + nf, 4: -nf, 5: 0, 6: nf, 7: 1 - nf, 8: 1, 9: 1 + nf}
-        for nt in threads:
+        for nt in threads_of(im):
             path = os.path.join(d, "trace_%d_%d.txt" % (k, nt))
             if not os.path.exists(path):
                 raise common.MachineryError("hooks build wrote no trace (%s): hooks missing from src/localmaxlabel.c?" % path)
@@ -217,6 +332,14 @@ def hook_traces(chk, tier):
                 elif w[0] == "E":
                     evs[int(w[1])].append([int(w[2]), int(w[3]) + 1, int(w[4])])
             N = ns * nf
+            # vacuity guard: the parallel region really ran with the requested number of threads (one log per thread)
+            if sorted(ranges) != list(range(nt)):
+                raise common.MachineryError("vacuity: %d threads requested for %s %dx%d, the walk region logged threads %s"
+                                            % (nt, name, ns, nf, sorted(ranges)))
+            nmore += int(nt > N)
+            nruns += 1
+            # (noted, not judged: the ranges are those of LocalMaxPar's Lo / Hi, which tile the image - RangesTile)
+            nmodel += int(all(ranges[t] == ((N * t) // nt, (N * (t + 1)) // nt) for t in range(nt)))
             tgt = [0 if lvals[x] == 0 else x + off[lvals[x]] + 1 for x in range(N)]
             final = [int(v) for v in exp.ravel()]
             lab = np.load(os.path.join(d, "labels_%d_%d.npy" % (k, nt)))
@@ -252,7 +375,49 @@ def hook_traces(chk, tier):
                 v["why"], r["id"], v["consumed"], nxt), meta[r["id"]])
     chk.notes["hook_thread_logs"] = len(recs)
     chk.notes["hook_write_events"] = nev
+    chk.notes["hook_runs_more_threads_than_pixels"] = nmore
+    chk.notes["hook_strip_images"] = nstrip
+    chk.notes["hook_runs_thread_count_confirmed_by_logs"] = nruns
+    chk.notes["hook_runs_ranges_equal_LocalMaxPar_LoHi"] = nmodel
+    if nmore < 4 and not chk.violations:
+        raise common.MachineryError("vacuity: no hooks run with more threads than pixels")
     return [r for r in recs if verdicts[r["id"]]["ok"]]
+
+
+def strip_images(a, b, rng):
+    """images for boundary shapes (one or two interior rows / columns): the border is low (distinct negative noise) so
+    that the interior ascent stays inside; `inner_up` / `inner_down` give ONE ascent path along the whole strip
+    (towards later / earlier pixels: it crosses every thread's range), `inner_saw` a maximum every 7 pixels"""
+    r, c = np.mgrid[0:a, 0:b]
+    k = (r * b + c).astype(np.float64)
+    inner = np.zeros((a, b), bool)
+    inner[1:-1, 1:-1] = True
+    base = -(1.0 + rng.permutation(a * b).reshape(a, b))
+    out = [("strip_inner_up", np.where(inner, k + 1, base)),
+           ("strip_inner_down", np.where(inner, a * b - k, base)),
+           ("strip_inner_saw", np.where(inner, (k % 7) * 4096 + k + 1, base)),
+           ("strip_inner_noise", np.where(inner, 1.0 + rng.permutation(a * b).reshape(a, b), base)),
+           ("strip_noise", rng.permutation(a * b).reshape(a, b).astype(np.float64)),
+           ("strip_ramp_diag", k)]
+    return [(n, np.ascontiguousarray(im, np.float32)) for n, im in out]
+
+
+def boundary_shapes(tier, rng):
+    """3xN / Nx3 / 4xN / Nx4 / Nx5: fixed ones (3x3, 345x3 and 211x5 are > 1024 pixels with remainders npx % nt that
+    exceed the strip width for nt = 7, 16, 31, 64) and seeded lengths"""
+    shapes = [(3, 3), (3, 4), (4, 3), (3, 200), (200, 3), (4, 64), (64, 4), (345, 3), (3, 345), (211, 5)]
+    n = 2 if tier == "quick" else 8
+    for _ in range(n):
+        N = int(rng.integers(5, 700))
+        shapes += [(3, N), (N, 3)]
+    if tier != "quick":
+        shapes += [(1001, 20), (20, 1001), (5, 211), (3, 5), (5, 3), (4, 4)]
+    return shapes
+
+
+WRK_FILLS = [77, 0, 5, 1, 2, 3, 4, 6, 7, 8, 9, 255]     # previous content of the work buffer: all direction codes
+LAB_FILLS = [c13_replay.POISON, 999999, 0, 12345]
+BOUNDARY_THREADS = [1, 2, 3, 5, 7, 16, 31, 64]
 
 
 def stress(chk, tier, cImageD11):
@@ -260,8 +425,50 @@ def stress(chk, tier, cImageD11):
     threads = [1, 2, 3, 4, 8, 16, 32, 64]
     reps = 3 if tier == "quick" else 25
     old = cImageD11.cimaged11_omp_get_max_threads()
-    nrun = 0
-    nrace = 0
+    st = {"nrun": 0, "boundary_runs": 0, "boundary_runs_more_threads_than_pixels": 0, "reused_buffer_runs": 0,
+          "boundary_runs_with_interior_maxima": 0, "stop": False}
+    wrk_fills = set()
+    prev = {}               # shape -> {image name: (labels, work) as the last call on that image left them}
+
+    def one(name, img, exp, nexp, nt, rep, boundary):
+        k = st["nrun"]
+        poison = LAB_FILLS[k % len(LAB_FILLS)]
+        wfill = WRK_FILLS[k % len(WRK_FILLS)]
+        others = [v for nm, v in prev.get(img.shape, {}).items() if nm != name]
+        reuse = (k % 5 == 4) and len(others) > 0
+        if reuse:               # history: buffers as a call on ANOTHER image of this shape left them (frame-to-frame re-use)
+            lab, wrk = [x.copy() for x in others[k % len(others)]]
+            st["reused_buffer_runs"] += 1
+        else:
+            lab = np.full(img.shape, poison, np.int32)
+            wrk = np.full(img.shape, wfill, np.uint8)
+            wrk_fills.add(wfill)
+        before = lab.copy()
+        n = cImageD11.localmaxlabel(img, lab, wrk)
+        prev.setdefault(img.shape, {})[name] = (lab, wrk)
+        st["nrun"] += 1
+        if boundary:
+            st["boundary_runs"] += 1
+            st["boundary_runs_more_threads_than_pixels"] += int(nt > img.size)
+            st["boundary_runs_with_interior_maxima"] += int(nexp > 0)
+        chk.case((name, img.shape, nt, rep))
+        if n == nexp and np.array_equal(lab, exp):
+            return
+        diff = np.argwhere(lab != exp)
+        stale = all(lab[tuple(p)] == before[tuple(p)] for p in diff) and n == nexp
+        what = ("localmaxlabel(%s %dx%d) with %d threads differs from the sequential steepest-ascent result "
+                "at %d pixels (count %d vs %d)%s" % (name, img.shape[0], img.shape[1], nt, len(diff), n, nexp,
+                                                    ": those pixels keep the previous buffer content" if stale else ""))
+        case = {"stress": name, "shape": list(img.shape), "threads": nt, "rep": rep, "seed": common.seed(),
+                "first_diffs": diff[:10].tolist(), "stale_buffer_content": bool(stale), "buffers_reused": bool(reuse)}
+        if nt > 1 and stale and not boundary and chk.finding(RACE_ID):
+            # structural match: only previous buffer content on pixels, valid labels elsewhere
+            chk.known_finding(RACE_ID, "stale buffer content on pixels whose ascent path leaves the thread's range (threads >= 2)")
+        else:
+            chk.violation(what, case)
+        if len(chk.violations) > 10:
+            st["stop"] = True
+
     try:
         for name, img in stress_images(tier, rng):
             d = definition(img)
@@ -269,35 +476,278 @@ def stress(chk, tier, cImageD11):
                 continue
             exp, nexp = d
             for nt in threads:
-                cImageD11.cimaged11_omp_set_num_threads(nt)
+                c13_replay.set_threads(cImageD11, nt)
                 for rep in range(reps if nt > 1 else 1):
-                    poison = [c13_replay.POISON, 999999, 0][rep % 3]
-                    lab = np.full(img.shape, poison, np.int32)
-                    wrk = np.full(img.shape, [77, 0, 5][rep % 3], np.uint8)
-                    n = cImageD11.localmaxlabel(img, lab, wrk)
-                    nrun += 1
-                    chk.case((name, img.shape, nt, rep))
-                    if n == nexp and np.array_equal(lab, exp):
-                        continue
-                    diff = np.argwhere(lab != exp)
-                    stale = all(lab[tuple(p)] == poison for p in diff) and n == nexp
-                    what = ("localmaxlabel(%s %dx%d) with %d threads differs from the sequential steepest-ascent result "
-                            "at %d pixels (count %d vs %d)" % (name, img.shape[0], img.shape[1], nt, len(diff), n, nexp))
-                    case = {"stress": name, "shape": list(img.shape), "threads": nt, "rep": rep, "seed": common.seed(),
-                            "first_diffs": diff[:10].tolist(), "stale_buffer_content": bool(stale)}
-                    if nt > 1 and stale and chk.finding(RACE_ID):
-                        # structural match: only poison (previous buffer content) on pixels, valid labels elsewhere
-                        chk.known_finding(RACE_ID, "stale buffer content on pixels whose ascent path leaves the thread's range (threads >= 2)")
-                        nrace += 1
-                    else:
-                        chk.violation(what, case)
-                    if len(chk.violations) > 10:
-                        return nrun
+                    one(name, img, exp, nexp, nt, rep, False)
+                    if st["stop"]:
+                        return st["nrun"]
+        # boundary shapes with explicit threads (harness-only family: the model is covariant in the shape)
+        shapes = boundary_shapes(tier, rng)
+        for (a, b) in shapes:
+            for name, img in strip_images(a, b, rng):
+                d = definition(img)
+                if d is None:
+                    continue
+                exp, nexp = d
+                for nt in BOUNDARY_THREADS:
+                    c13_replay.set_threads(cImageD11, nt)
+                    one(name, img, exp, nexp, nt, 0, True)
+                    if st["stop"]:
+                        return st["nrun"]
+    except c13_replay.ThreadsNotSet as e:
+        raise common.MachineryError("vacuity: %s" % e)
     finally:
         cImageD11.cimaged11_omp_set_num_threads(old)
-    chk.notes["stress_runs"] = nrun
+    chk.notes["stress_runs"] = st["nrun"]
     chk.notes["stress_thread_counts"] = threads
-    return nrun
+    chk.notes["stress_thread_counts_read_back"] = True
+    chk.notes["stress_boundary_shapes"] = {"shapes": [list(x) for x in shapes], "threads": BOUNDARY_THREADS,
+                                           "runs": st["boundary_runs"],
+                                           "runs_more_threads_than_pixels": st["boundary_runs_more_threads_than_pixels"],
+                                           "runs_with_interior_maxima": st["boundary_runs_with_interior_maxima"]}
+    chk.notes["stress_work_buffer_prefills"] = sorted(wrk_fills)
+    chk.notes["stress_runs_on_buffers_left_by_previous_call"] = st["reused_buffer_runs"]
+    if st["boundary_runs_more_threads_than_pixels"] < 5 or st["reused_buffer_runs"] < 20 or len(wrk_fills) < len(WRK_FILLS):
+        raise common.MachineryError("vacuity: boundary / buffer families of the stress runs were not exercised: %s" % st)
+    return st["nrun"]
+
+
+def call_sparse(cImageD11, v, ii, jj, fill):
+    sl = np.full(len(v), c13_replay.POISON, np.int32)
+    mv = np.full(len(v), fill, np.float32)
+    imv = np.full(len(v), c13_replay.POISON, np.int32)
+    n = cImageD11.sparse_localmaxlabel(np.ascontiguousarray(v, np.float32), ii, jj, mv, imv, sl)
+    return n, sl
+
+
+def sparse_stress(chk, tier, mods):
+    """the stress images (long ascent paths, ridges, noise) and one larger frame through the sparse kernel and the
+    sparse_frame route; expectation `sparse_definition`; plus the sparse / dense partition clause on the real outputs"""
+    cImageD11, sparseframe = mods
+    rng = np.random.default_rng(common.seed() + 1357)
+    st = {"images": 0, "kernel_calls": 0, "frame_calls": 0, "tie_skipped": 0, "longest_ascent_path": 0,
+          "largest_listing": 0, "masks": {}, "value_classes": {}, "offset_calls": 0, "partition_clause_judged": 0,
+          "partition_clause_judged_pixels": 0, "calls_with_values_le_mvlow": 0}
+    imgs = stress_images(tier, rng)
+    big = (257, 300) if tier == "quick" else (1000, 1100)
+    imgs.append(("serpentine_big", serpentine(big[0], big[1], rng)))
+    imgs.append(("noise_big", rng.permutation(big[0] * big[1]).reshape(big).astype(np.float32)))
+    old = cImageD11.cimaged11_omp_get_max_threads()
+    try:
+        c13_replay.set_threads(cImageD11, 3)
+        for name, img in imgs:
+            ns, nf = img.shape
+            d = definition(img, pointers=True)
+            inner = np.zeros(img.shape, bool)
+            inner[1:-1, 1:-1] = True
+            med = float(np.median(img))
+            masks = [("full", np.ones(img.shape, bool)), ("interior", inner), ("threshold", img >= med),
+                     ("random", rng.random(img.shape) < 0.6)]
+            dense = None
+            if d is not None:
+                # listed set closed under the dense ascent: interior pixels above the cut whose basin is not background
+                exp, nexp, ptr0 = d
+                closed = inner & (exp > 0) & (img >= np.quantile(img, 0.3))
+                lf = closed.ravel()
+                if closed.any() and lf[ptr0[lf]].all():
+                    masks.append(("ascent_closed", closed))
+                    dense = np.full(img.shape, c13_replay.POISON, np.int32)
+                    cImageD11.localmaxlabel(img, dense, np.full(img.shape, 77, np.uint8))
+            st["images"] += 1
+            for mname, m in masks:
+                if m.sum() == 0:
+                    continue
+                ii, jj = np.nonzero(m)
+                ii16, jj16 = ii.astype(np.uint16), jj.astype(np.uint16)
+                # value classes: as given, all negative, mixed sign by rank, and the two classes around -1e10
+                order = np.argsort(np.argsort(img[m], kind="stable"), kind="stable").astype(np.float64)   # ranks 0..n-1
+                nn = float(len(order))
+                classes = [("as_given", img[m]), ("negative_by_rank", order - nn), ("mixed_by_rank", order - nn // 2 - 0.5)]
+                if len(order) < 4000:
+                    classes += [("below_mvlow_by_rank", (order - nn - 1.0) * 1.0e7 - 1.0e10),
+                                ("straddle_mvlow_by_rank", (order - nn // 2) * 1.0e7 - 1.0e10)]
+                pos_ok = True
+                for kc, (cname, vals) in enumerate(classes):
+                    v = np.ascontiguousarray(vals, np.float32)
+                    vimg = np.zeros(img.shape, np.float32)
+                    vimg[m] = v
+                    es = sparse_definition(vimg, m)
+                    if es is None:
+                        st["tie_skipped"] += 1
+                        continue
+                    elab, en = es
+                    low = bool((v <= c13_replay.MV_LOW).any())
+                    st["calls_with_values_le_mvlow"] += int(low)
+                    for fill in ((-123.0, 3.0e38) if kc == 0 else ((-3.0e38, 0.0)[kc % 2],)):
+                        n2, sl = call_sparse(cImageD11, v, ii16, jj16, fill)
+                        st["kernel_calls"] += 1
+                        chk.case(("sparse_stress", name, img.shape, mname, cname, fill))
+                        if n2 != en or not np.array_equal(sl, elab):
+                            if cname == "as_given":
+                                pos_ok = False
+                            bad = np.nonzero(sl != elab)[0]
+                            tag = c13_replay.MVLOW_TAG if (low and pos_ok) else ""
+                            report(chk, "%ssparse_localmaxlabel(%s %dx%d, listing '%s' of %d pixels, values '%s', work buffers "
+                                   "pre-filled with %g): %d labels (n=%d) differ from the steepest-ascent definition (n=%d), "
+                                   "first at listed pixel %s" % (tag, name, ns, nf, mname, len(v), cname, fill, len(bad), n2, en,
+                                                                 bad[:1].tolist()),
+                                   {"sparse_stress": name, "shape": [ns, nf], "mask": mname, "values": cname, "seed": common.seed()})
+                    st["value_classes"][cname] = st["value_classes"].get(cname, 0) + 1
+                    if kc == 0:
+                        st["largest_listing"] = max(st["largest_listing"], len(v))
+                        # the same listing at the top of the uint16 coordinate range
+                        n4, sl4 = call_sparse(cImageD11, v, (ii + (65536 - ns)).astype(np.uint16),
+                                               (jj + (65536 - nf)).astype(np.uint16), -123.0)
+                        st["offset_calls"] += 1
+                        if n4 != en or not np.array_equal(sl4, elab):
+                            chk.violation("sparse_localmaxlabel(%s %dx%d, listing '%s') with the coordinates shifted to the top of "
+                                          "the uint16 range (last row / column 65535) differs from the steepest-ascent definition"
+                                          % (name, ns, nf, mname),
+                                          {"sparse_stress": name, "shape": [ns, nf], "mask": mname, "offset": True, "seed": common.seed()})
+                        fr = sparseframe.sparse_frame(ii16, jj16, (ns, nf), pixels={"intensity": v})
+                        n3 = sparseframe.sparse_localmax(fr)
+                        st["frame_calls"] += 1
+                        if n3 != en or not np.array_equal(fr.pixels["localmax"], elab):
+                            chk.violation("sparseframe.sparse_localmax(%s %dx%d, listing '%s') differs from the steepest-ascent "
+                                          "definition" % (name, ns, nf, mname),
+                                          {"sparse_stress": name, "shape": [ns, nf], "mask": mname, "frame": True, "seed": common.seed()})
+                        if mname == "ascent_closed" and dense is not None:
+                            st["partition_clause_judged"] += 1
+                            st["partition_clause_judged_pixels"] += len(v)
+                            dl = dense[m]
+                            # same partition <=> the pairs (dense label, sparse label) form a bijection
+                            pairs = np.unique(np.stack([dl.astype(np.int64), sl.astype(np.int64)]), axis=1)
+                            if len(np.unique(pairs[0])) != pairs.shape[1] or len(np.unique(pairs[1])) != pairs.shape[1] or (dl == 0).any():
+                                chk.violation("sparse and dense variants give different partitions of the listed pixels (%s %dx%d, "
+                                              "%d listed pixels closed under the ascent): %d distinct label pairs for %d dense and "
+                                              "%d sparse labels" % (name, ns, nf, len(v), pairs.shape[1], len(np.unique(pairs[0])),
+                                                                    len(np.unique(pairs[1]))),
+                                              {"sparse_stress": name, "shape": [ns, nf], "mask": mname, "partition": True,
+                                               "seed": common.seed()})
+                st["masks"][mname] = st["masks"].get(mname, 0) + 1
+                if len(chk.violations) > 10:
+                    break
+            if d is not None and name.startswith("serpentine"):
+                # length of the longest ascent chain (vacuity of "long paths"): pointer doubling with accumulated distances
+                q = d[2].copy()
+                dist = (q != np.arange(img.size)).astype(np.int64)
+                for _ in range(64):
+                    nd = dist + dist[q]
+                    nq = q[q]
+                    if np.array_equal(nq, q):
+                        break
+                    dist, q = nd, nq
+                st["longest_ascent_path"] = max(st["longest_ascent_path"], int(dist.max()))
+            if len(chk.violations) > 10:
+                break
+    except c13_replay.ThreadsNotSet as e:
+        raise common.MachineryError("vacuity: %s" % e)
+    finally:
+        cImageD11.cimaged11_omp_set_num_threads(old)
+    chk.notes["sparse_stress"] = st
+    if not chk.violations and (st["partition_clause_judged"] < 5 or st["longest_ascent_path"] < 1000
+                               or st["masks"].get("full", 0) < 10):
+        raise common.MachineryError("vacuity: sparse stress families not exercised: %s" % st)
+
+
+def smooth_routes(chk, tier, mods):
+    """cImageD11.sparse_smooth and sparseframe.sparse_smooth directly, and sparse_localmaxlabel on the smoothed signal
+    (the composition SparseScan.lmlabel(smooth=True) performs per frame).  Values are integers of magnitude < 2^20: every
+    product with k/16 and every partial sum is then exact in binary32, so 16 x result must EQUAL the integer definition"""
+    cImageD11, sparseframe = mods
+    rng = np.random.default_rng(common.seed() + 1616)
+    st = {"cases": 0, "kernel_calls": 0, "frame_calls": 0, "labelled_smoothed": 0, "labelled_smoothed_tie_skipped": 0,
+          "cases_16x16": 0, "cases_negative_values": 0, "cases_top_of_uint16_range": 0}
+    shapes = [(16, 16)] * (6 if tier == "quick" else 40) + [(3, 50), (40, 33), (50, 3), (1, 20), (20, 1), (2, 2)]
+    cases = []
+    for kk, (ns, nf) in enumerate(shapes):
+        kind = kk % 6
+        if kind == 0:
+            m = np.ones((ns, nf), bool)
+        elif kind == 1:
+            m = rng.random((ns, nf)) < 0.5
+        elif kind == 2:
+            m = rng.random((ns, nf)) < 0.2
+        elif kind == 3:
+            m = np.zeros((ns, nf), bool)
+            m[::2, :] = True                         # every other row: no vertical neighbours
+        elif kind == 4:
+            m = (np.add.outer(np.arange(ns), np.arange(nf)) % 2) == 0      # checkerboard: corner neighbours only
+        else:
+            m = rng.random((ns, nf)) < 0.8
+        if m.sum() == 0:
+            m[0, 0] = True
+        vk = kk % 4
+        if vk == 0:
+            vals = rng.integers(1, 2 ** 20, size=(ns, nf))
+        elif vk == 1:
+            vals = rng.integers(-2 ** 20 + 1, 2 ** 20, size=(ns, nf))        # mixed sign
+        elif vk == 2:
+            vals = rng.integers(1, 3, size=(ns, nf))                          # the SparseScan models' alphabet {1, 2}
+        else:
+            vals = rng.permutation(ns * nf).reshape(ns, nf) + 1               # tie-free input
+        off = (0, 0) if kk % 3 else (65536 - ns, 65536 - nf)
+        cases.append((ns, nf, m, vals, off))
+    # far apart columns on the same rows (column difference beyond 46340: its square does not fit an int)
+    m = np.zeros((3, 50003), bool)
+    m[0:3, 0:2] = True
+    m[0:3, 50000:50003] = True
+    cases.append((3, 50003, m, rng.integers(1, 2 ** 20, size=m.shape), (0, 0)))
+    for (ns, nf, m, vals, off) in cases:
+        ii, jj = np.nonzero(m)
+        rows, cols = (ii + off[0]).astype(np.uint16), (jj + off[1]).astype(np.uint16)
+        v = vals[m].astype(np.float32)
+        e16 = smooth16_definition(rows, cols, vals[m])
+        st["cases"] += 1
+        st["cases_16x16"] += int((ns, nf) == (16, 16))
+        st["cases_negative_values"] += int((vals[m] < 0).any())
+        st["cases_top_of_uint16_range"] += int(off != (0, 0))
+        chk.case(("smooth", ns, nf, m.tobytes()[:4000], vals[m].tobytes()[:4000], off))
+        chk.traces += 1
+        case = {"smooth_case": {"shape": [ns, nf], "rows": rows.tolist()[:600], "cols": cols.tolist()[:600],
+                                "values": vals[m].tolist()[:600], "seed": common.seed()}}
+        sm = None
+        for fill in (3.0e38, -123.0):
+            out = np.full(len(v), fill, np.float32)
+            cImageD11.sparse_smooth(v, rows, cols, out)
+            st["kernel_calls"] += 1
+            if not np.array_equal(out.astype(np.float64) * 16, e16.astype(np.float64)):
+                bad = np.nonzero(out.astype(np.float64) * 16 != e16)[0]
+                chk.violation("cImageD11.sparse_smooth (%dx%d, %d pixels, output pre-filled with %g): 16 x result differs from the "
+                              "weights 4/2/1 definition at %d pixels, first: pixel %d (row %d, col %d) gives %r, definition %d"
+                              % (ns, nf, len(v), fill, len(bad), bad[0], rows[bad[0]], cols[bad[0]],
+                                 float(out[bad[0]]) * 16, e16[bad[0]]), case)
+                break
+            sm = out
+        if off == (0, 0):
+            fr = sparseframe.sparse_frame(rows, cols, (ns, nf), pixels={"intensity": v})
+        else:       # (sparse_frame accepts shapes and indices below 65535 only)
+            fr = sparseframe.sparse_frame((ii + (65534 - ns)).astype(np.uint16), (jj + (65534 - nf)).astype(np.uint16),
+                                          (65534, 65534), pixels={"intensity": v})
+        out = sparseframe.sparse_smooth(fr)
+        st["frame_calls"] += 1
+        if not np.array_equal(np.asarray(out, np.float64) * 16, e16.astype(np.float64)):
+            chk.violation("sparseframe.sparse_smooth (%dx%d, %d pixels): 16 x result differs from the weights 4/2/1 definition"
+                          % (ns, nf, len(v)), case)
+        if sm is not None and nf < 1000:
+            # labelling of the smoothed signal: meaning = steepest ascent over the exact smoothed integers
+            simg = np.zeros((ns, nf), np.float64)
+            simg[m] = e16
+            es = sparse_definition(simg, m)
+            if es is None:
+                st["labelled_smoothed_tie_skipped"] += 1
+            else:
+                n2, sl = call_sparse(cImageD11, sm, rows, cols, 3.0e38)
+                st["labelled_smoothed"] += 1
+                if n2 != es[1] or not np.array_equal(sl, es[0]):
+                    chk.violation("sparse_localmaxlabel on the signal smoothed by sparse_smooth (%dx%d, %d pixels) differs from "
+                                  "steepest ascent over the exactly smoothed values: n=%d, definition n=%d" % (ns, nf, len(v), n2, es[1]),
+                                  case)
+        if len(chk.violations) > 10:
+            break
+    chk.notes["sparse_smooth_direct"] = st
+    if not chk.violations and (st["cases_16x16"] < 6 or st["labelled_smoothed"] < 3 or st["cases_negative_values"] < 2):
+        raise common.MachineryError("vacuity: direct sparse_smooth family not exercised: %s" % st)
 
 
 def replay_asan(chk, cases, tag):
@@ -325,10 +775,18 @@ def replay_asan(chk, cases, tag):
             {"sanitizer_stderr": rep, "near_cases": cases[max(0, last - 1):last + 2], "asan": True})
     elif p.returncode != 0:
         raise common.MachineryError("asan replay subprocess failed rc=%s: %s" % (p.returncode, p.stderr[-1500:]))
-    for pr in out.get("problems", [])[:10]:
+    nrep = 0
+    for pr in out.get("problems", []):
         for msg in pr["problems"]:
-            chk.violation("[sanitizer build] " + msg, pr["case"])
+            if msg.startswith(c13_replay.MVLOW_TAG):
+                report(chk, msg, pr["case"])
+            elif nrep < 10:
+                nrep += 1
+                chk.violation("[sanitizer build] " + msg, pr["case"])
+    if out.get("machinery"):
+        raise common.MachineryError("vacuity (sanitizer build): %s" % out["machinery"])
     chk.notes["asan_cases"] = chk.notes.get("asan_cases", 0) + out.get("n", 0)
+    chk.notes["asan_small_dense_threads"] = out.get("stats", {}).get("small_dense_threads", {})
 
 
 def run(tier, replay=None):
@@ -340,12 +798,22 @@ def run(tier, replay=None):
     chk.rule = ("TLC enumerates images (all images over a small alphabet on 3x3/3x4; the quadratic family mod P on "
                 "4x4..5x5), runs the phase-by-phase model of localmaxlabel and emits the exact labels; each case is "
                 "replayed on the real kernels with poisoned buffers; LocalMaxPar explores every interleaving of 2-3 "
-                "threads on a chain crossing the block boundaries; stress runs at 1..64 threads must equal the "
-                "sequential result. non-trivial = image has an interior maximum; distinct = distinct image / (image, threads, repetition)")
+                "threads on a chain crossing the block boundaries (and 5 / 7 threads on 3 / 5 pixels); stress runs at "
+                "1..64 threads (thread count read back) on square images and on 3xN / Nx3 / 4xN / Nx5 strips must equal "
+                "the sequential result; the stress images and a larger frame also go through the sparse kernel (listings: "
+                "full, interior, threshold, random, ascent-closed; every sign class of values; coordinates at the top of the "
+                "uint16 range) against the sparse definition, and sparse / dense partitions are compared on the real outputs "
+                "where the listing is closed under the ascent; sparse_smooth directly with exactly representable sums. "
+                "non-trivial = image has an interior maximum; distinct = distinct image / (image, threads, repetition) / "
+                "(image, listing, value class, buffer fill)")
     chk.assumptions = ["property judged only on images whose every 3x3 block has a unique maximum (no equal-valued neighbours)",
                        "parallel model assumes sequentially consistent memory; real interleavings are not observable, "
                        "the parallel specification is bound by outcome sets",
-                       "sparse variant bound through its abstract definition (tie-free threshold masks)"]
+                       "sparse variant bound through its abstract definition on tie-free listings; the clause 'same partition "
+                       "as the dense variant' applies when no listed pixel's dense ascent leaves the listed set (otherwise the "
+                       "dense basin contains unlisted pixels and the comparison is skipped and counted)",
+                       "sparse_smooth judged with integer values below 2^20 (sums exact in binary32): rounding of the "
+                       "accumulation for general values is not part of the claim"]
     if replay:
         return run_replay(chk, mods, replay)
 
@@ -367,9 +835,12 @@ def run(tier, replay=None):
         if bad:
             raise common.MachineryError("%d unparsable TLC lines" % bad)
     ntf = sum(1 for case in cases if case["tiefree"])      # (counted on the emitted cases, not on those replayed)
+    stats = {}
     for idx, case in enumerate(cases):
         try:
-            probs = c13_replay.run_case(case, mods, idx)
+            probs = c13_replay.run_case(case, mods, idx, threads=c13_replay.block_threads(idx), stats=stats)
+        except c13_replay.ThreadsNotSet as e:
+            raise common.MachineryError("vacuity: %s" % e)
         except Exception as e:
             probs = ["exception %r" % (e,)]
         chk.case((case["ns"], case["nf"], tuple(case["img"])), nontrivial=case["npk"] > 0)
@@ -377,12 +848,19 @@ def run(tier, replay=None):
         if idx in (3, 4000):
             chk.sample({k: case[k] for k in ("ns", "nf", "img", "lout", "npk", "tiefree")})
         for p in probs:
-            chk.violation(p, {k: case[k] for k in ("ns", "nf", "img", "lout", "npk", "tiefree")})
+            report(chk, p, {k: case[k] for k in ("ns", "nf", "img", "lout", "npk", "tiefree")})
         if len(chk.violations) > 20:
             break
     chk.notes["tiefree_cases"] = ntf
+    chk.notes["small_case_families"] = stats
     if ntf < 50:
         raise common.MachineryError("vacuity: only %d tie-free images enumerated" % ntf)
+    if not chk.violations:
+        sc = stats.get("sparse_sign_classes", {})
+        if (stats.get("partition_clause_judged_two_or_more_basins", 0) < 20 or stats.get("small_dense_more_threads_than_pixels", 0) < 500
+                or len(stats.get("small_dense_threads", {})) < len(set(c13_replay.SMALL_THREADS)) or min(sc.values() or [0]) < 1000
+                or len(sc) < 5 or stats.get("sparse_cases_with_values_le_mvlow", 0) < 1000):
+            raise common.MachineryError("vacuity: families of the small-case replay not exercised: %s" % stats)
     rng = np.random.default_rng(common.seed())
     clean = [{k: c[k] for k in ("ns", "nf", "img", "lout", "npk", "tiefree")} for c in cases]
     sel = clean if tier == "thorough" else [c for c in clean if rng.random() < 0.25]
@@ -397,6 +875,12 @@ def run(tier, replay=None):
     chk.add_tlc("LocalMaxPar repaired ordering N=7 NT=3", r)
     if r.violated:
         raise common.MachineryError("repaired ordering violates %s" % r.violated)
+    # more threads than pixels: threads with empty ranges
+    for (n_, nt_) in ([(3, 5), (4, 6)] if tier == "quick" else [(3, 5), (4, 6), (5, 7)]):
+        r = common.run_tlc("LocalMaxPar", par_cfg(n_, nt_, True, True), workers=4 if n_ < 5 else 16, timeout=900)
+        chk.add_tlc("LocalMaxPar repaired ordering N=%d NT=%d (more threads than pixels)" % (n_, nt_), r)
+        if r.violated:
+            raise common.MachineryError("repaired ordering violates %s" % r.violated)
     r = common.run_tlc("LocalMaxPar", par_cfg(6, 2, False, True, invs=("Correct",)), workers=16, timeout=900)
     chk.add_tlc("LocalMaxPar pinned ordering (expected: Correct violated)", r)
     if "Correct" not in r.violated:
@@ -407,9 +891,13 @@ def run(tier, replay=None):
         if r.violated:
             raise common.MachineryError("repaired ordering violates %s" % r.violated)
     run_gap_patterns(chk, tier, mods)
-    sparsescan_routes(chk, tier)
-    hook_recs = hook_traces(chk, tier)
     stress(chk, tier, cImageD11)
+    sparse_stress(chk, tier, mods)
+    smooth_routes(chk, tier, mods)
+    sparsescan_routes(chk, tier)
+    # (after the outcome-based families: a tree whose walk region does not run with the requested number of threads
+    #  makes the hooks binding inapplicable - a machinery error - and must have been judged on its outcomes before)
+    hook_recs = hook_traces(chk, tier)
     chk.exhaustive = False
     if tier == "thorough":
         selftest(mods)
@@ -420,13 +908,17 @@ def run(tier, replay=None):
 def sparsescan_routes(chk, tier):
     """SparseScan.lmlabel (sparse_localmaxlabel frame by frame over a scan file, optional sparse_smooth, countall
     offsets): every behaviour of SparseScan.tla's lmlabel stages (statement-level transcription of the sparse kernel)
-    is replayed on the real class; failures of the lmlabel routes are C13 violations"""
+    is replayed on the real class; failures of the lmlabel routes and of the direct kernel calls of the same replay
+    (cImageD11.sparse_localmaxlabel, cImageD11.sparse_smooth, sparseframe.sparse_smooth) are C13 violations"""
     from props import x03
     runs = [("SparseScan qb (1x3 over {0,1,2}: all sequences of <= 3 frames with <= 3 pixels; lmlabel stages)", "SparseScan_qb.cfg", 600),
             ("SparseScan qa (2x3 over {0,1,2}: every single frame, pairs with <= 2 pixels; smoothed lmlabel stage)", "SparseScan_qa.cfg", 600)]
     if tier == "thorough":
         runs.append(("SparseScan t2 (2x3 over {0,1,2}: sequences of <= 3 frames with <= 3 pixels; all stages)", "SparseScan_t2.cfg", 3000))
-    x03.bind_routes(chk, "SparseScan.lmlabel", runs, "c13ss")
+    # (a tuple of prefixes: str.startswith accepts it; the kernels called directly on every frame of the same replay -
+    #  sparse_localmaxlabel with both work-buffer fills, sparse_smooth through both entry points - are C13's too)
+    x03.bind_routes(chk, ("SparseScan.lmlabel", "cImageD11.sparse_localmaxlabel", "cImageD11.sparse_smooth",
+                          "sparseframe.sparse_smooth"), runs, "c13ss")
 
 
 def selftest_walk(chk, recs):
@@ -461,9 +953,9 @@ def run_replay(chk, mods, path):
     case = obj["case"]
     chk.exhaustive = False
     if "img" in case:
-        for idx in range(6):
-            for p in c13_replay.run_case(case, mods, idx):
-                chk.violation(p, case)
+        for idx in range(60):
+            for p in c13_replay.run_case(case, mods, idx, threads=c13_replay.SMALL_THREADS[idx % len(c13_replay.SMALL_THREADS)]):
+                report(chk, p, case)
             chk.case((tuple(case["img"]), idx))
             chk.traces += 1
         chk.sample(case)
@@ -478,6 +970,12 @@ def run_replay(chk, mods, path):
     elif "gap_pattern" in case:
         run_gap_patterns(chk, chk.tier, mods)
         chk.sample({"replayed": "gap patterns"})
+    elif "sparse_stress" in case:
+        sparse_stress(chk, chk.tier, mods)
+        chk.sample({"replayed": "sparse stress"})
+    elif "smooth_case" in case:
+        smooth_routes(chk, chk.tier, mods)
+        chk.sample({"replayed": "direct sparse_smooth"})
     else:
         stress(chk, chk.tier, mods[0])
         chk.sample({"replayed": "stress"})
